@@ -20,7 +20,7 @@ func libraryEntries(p *Prog) []*ssa.Function {
 
 func checkC10(c *Ctx) {
 	r, p := c.R, c.P
-	r.Explanation = "Census of all package-level variables of the module and of every access to them (direct, through their address, and through aliases: values loaded from them and projections of those values, followed into module callees by per-parameter mutation summaries) in the functions reachable from the library's entry points. Decides: (G1) a variable that is written after initialisation in reach of the entry points is accessed only through sync/atomic or only in functions that hold a sync lock; (G2) shared reference-typed variables (maps, slices, pointers: the default context, the processing-data node, the deny-list, the PEG grammar table) are never mutated through any alias, and their address does not escape to code that could; (G3) no goroutine is started and no sync.Pool / unsafe / reflect-based sharing exists in the module's own code in reach. Concurrency safety of OPA's prepared query and of json-gold is the documented, trusted base."
+	r.Explanation = "Census of all package-level variables of the module and of every access to them (direct, through their address, and through aliases: values loaded from them and projections of those values, followed into module callees by per-parameter mutation summaries) in the functions reachable from the library's entry points. Decides: (G1) a variable that is written after initialisation in reach of the entry points is accessed only through sync/atomic or only in functions that hold a sync lock; (G2) shared reference-typed variables (maps, slices, pointers: the default context, the processing-data node, the deny-list, the PEG grammar table) are never mutated through any alias, and their address does not escape to code that could; (G4) no call leaves state behind in a package-level variable at all (writes under a lock, sync.Map stores, atomic stores and swaps included; monotone atomic increments excepted): synchronised caches make calls race-free but not independent of each other; (G3) no goroutine is started and no sync.Pool / unsafe / reflect-based sharing exists in the module's own code in reach. Concurrency safety of OPA's prepared query and of json-gold is the documented, trusted base."
 	r.Declines = []string{"thread-safety of OPA's PreparedEvalQuery.Eval and of json-gold (documented as safe; trusted)", "interleavings as such: the rule excludes unsynchronised shared writes instead of exploring schedules"}
 	r.Trusted = []string{"sync/atomic and sync.Mutex semantics", "dependencies do not retain or mutate the module values they are handed (fixed read-only list in the checker; anything else is reported)"}
 	r.Rule("C10.G1", "package-level variables written after initialisation are only accessed atomically or under a lock", 1)
@@ -137,6 +137,22 @@ func checkC10(c *Ctx) {
 			}
 		}
 	}
+
+	// G4: isolation. Synchronisation makes shared state race-free, not invisible: a value one call leaves in a package-level
+	// variable (a cache, a memo table, a pool of slots) is observed by the next or by a concurrent call, which then no longer
+	// computes its result from its own arguments alone. Only monotone atomic counters (fresh names) are exempt.
+	r.Rule("C10.G4", "no call leaves state behind in a package-level variable (caches, memo tables, slots), synchronised or not", 1)
+	shared := 0
+	for _, g := range globals {
+		if w := crossCallWrites(p, ms, g, funcs); len(w) > 0 {
+			shared++
+			if len(w) > 4 {
+				w = append(w[:4], fmt.Sprintf("... %d more", len(w)-4))
+			}
+			r.Bad("C10.G4", globalKey(g), p.Pos(g.Pos()), "a call leaves state in this package-level variable that other calls read (a transparent cache would need a proof that its key determines the value; none is attempted): "+strings.Join(w, "; "))
+		}
+	}
+	r.OK("C10.G4", "census", "", fmt.Sprintf("%d package-level variables examined over %d functions in reach of the entry points: %d hold cross-call state", len(globals), len(funcs), shared))
 
 	// G3
 	gos, pools, unsafes := 0, 0, 0
